@@ -312,13 +312,27 @@ fn run(ctx: &Ctx, rep: &Report) {
             }
         }
     }
+    // hand-encoded packages whose headers do NOT end in a region trailer: the data section ends in a
+    // string, in alignment slack before nothing, or in unreferenced bytes (a cut there removes bytes
+    // that no index entry points at)
+    {
+        use crate::model::codec::{enc_header, enc_lead, enc_package, layout, Val};
+        for (k, slack) in [0usize, 1, 5, 16].into_iter().enumerate() {
+            let items: Vec<(u32, Val)> = vec![(1000, Val::Str(b"tail".to_vec())), (1001, Val::Int32(vec![7, 8])), (1002, Val::Str(b"the last string of the data section".to_vec()))];
+            let (e, mut st) = layout(&items);
+            st.extend(std::iter::repeat(0x5a).take(slack));
+            let (se, mut ss) = layout(&[(1004, Val::Bin(vec![1, 2, 3, 4, 5]))]);
+            ss.extend(std::iter::repeat(0x6b).take(slack % 3));
+            pkgs.push((format!("hand-encoded-tail-{k}"), enc_package(&enc_lead("tail"), &enc_header(&se, &ss), &enc_header(&e, &st), b"payload after a header that ends in slack")));
+        }
+    }
     // one package whose payload spans several 64 KiB blocks (uncompressed, incompressible content)
     {
         let mut r = Rng::for_case(ctx.seed, "C14-large", 0);
         let mut cfg = gen_cfg(&mut r, &GenOpts { max_files: 0, ..Default::default() });
         cfg.files.clear();
         cfg.compression = Some(("none".into(), 0));
-        cfg.files.push(FileCfg { dest: "/opt/large/blob.bin".into(), content_kind: "noise".into(), size: 150_000 + r.usize(70_000), content_seed: r.next(), mode: Some(0o100644), source_perm: 0o644, user: None, group: None, flags: vec![], caps: None, symlink: None, mtime: 1_500_000_000, verify: None });
+        cfg.files.push(FileCfg { dest: "/opt/large/blob.bin".into(), content_kind: "noise".into(), size: 1_100_000 + r.usize(200_000), content_seed: r.next(), mode: Some(0o100644), source_perm: 0o644, user: None, group: None, flags: vec![], caps: None, symlink: None, mtime: 1_500_000_000, verify: None });
         if let Ok(p) = build(&cfg, &dir) {
             if let Ok(b) = pkg_bytes(&p) {
                 pkgs.push(("built-large-payload".into(), b));
@@ -460,7 +474,8 @@ fn run(ctx: &Ctx, rep: &Report) {
 fn os_level(ctx: &Ctx, rep: &Report, pkgs: &[(String, Vec<u8>)]) {
     use std::io::Write;
     let dir = ctx.work_dir("os");
-    for (pi, (label, bytes)) in pkgs.iter().enumerate().take(ctx.tier.pick(6, 60)) {
+    let take = ctx.tier.pick(6, 60);
+    for (pi, (label, bytes)) in pkgs.iter().enumerate().filter(|(i, (l, _))| *i < take || l.starts_with("built-large") || l.starts_with("hand-encoded-tail")) {
         let Ok(pkg) = Package::parse(&mut &bytes[..]) else { continue };
         let w = |what: &str| json!({"package": label, "package_hex": hex::encode(bytes), "os_level": what});
         // (a) /dev/full: every write fails with ENOSPC
@@ -552,6 +567,36 @@ fn os_level(ctx: &Ctx, rep: &Report, pkgs: &[(String, Vec<u8>)]) {
                             rep.violation("read:os-pipe-differs", format!("[{label}] parsing from a pipe fed in bursts gives {} instead of {}", show(&g), show(&want)), w("fed-pipe"), 0);
                         } else {
                             rep.count("os.fed_pipe.same_result", 1);
+                        }
+                    }
+                }
+            }
+            // Package::open on a path that is not a regular file: the read end of a pipe reached
+            // through /proc/self/fd, fed by another thread
+            {
+                let mut fds = [0i32; 2];
+                if unsafe { libc::pipe(fds.as_mut_ptr()) } == 0 && std::path::Path::new("/proc/self/fd").exists() {
+                    use std::os::fd::FromRawFd;
+                    let rd = unsafe { std::fs::File::from_raw_fd(fds[0]) };
+                    let mut wr = unsafe { std::fs::File::from_raw_fd(fds[1]) };
+                    let data = bytes.clone();
+                    let feeder = std::thread::spawn(move || {
+                        let _ = wr.write_all(&data);
+                    });
+                    rep.eval(1);
+                    let want = Package::parse(&mut &bytes[..]);
+                    let path = format!("/proc/self/fd/{}", fds[0]);
+                    let got = guard(|| Package::open(&path));
+                    drop(rd);
+                    let _ = feeder.join();
+                    match got {
+                        Err(p) => rep.violation(format!("panic:open:{}", p.site()), format!("[{label}] Package::open on a pipe panics: {}", p.message), w("open-pipe"), 0),
+                        Ok(g) => {
+                            if !same_result(&g, &want) {
+                                rep.violation("read:open-on-pipe-differs", format!("[{label}] Package::open on a pipe gives {} instead of {}", show(&g), show(&want)), w("open-pipe"), 0);
+                            } else {
+                                rep.count("os.open_on_pipe.same_result", 1);
+                            }
                         }
                     }
                 }
